@@ -186,6 +186,8 @@ def run(tier):
     for c, o in zip(fcases, fo):
         if o.endswith("ALLEQ") and " F=-" not in o:
             nrep += 1
+        elif o.startswith("SKIP"):
+            pass
         elif not o.endswith("ALLEQ"):
             nv += 1
             if nv <= 5:
